@@ -63,3 +63,34 @@ pub fn check(ok: bool, what: &str) {
         panic!("{OOB_MSG}: {what}");
     }
 }
+
+// ---------------------------------------------------------------------------
+// Scheduling points (used by the external controlled scheduler of the
+// verification harness to explore interleavings of concurrent compilations).
+//
+// A scheduling point is placed *before* every acquisition of process-global
+// shared state. The hook is a plain function pointer, unset (no-op) by default.
+
+use std::sync::atomic::{AtomicUsize, Ordering};
+
+/// kinds of scheduling points
+pub const SP_INTERNER: u32 = 0;
+pub const SP_ENV_VAR: u32 = 1;
+pub const SP_FILE_BUCKET: u32 = 2;
+pub const SP_INTERNER_ESCAPE: u32 = 3;
+
+static SCHED_HOOK: AtomicUsize = AtomicUsize::new(0);
+
+/// Install (or remove, with `None`) the scheduling hook.
+pub fn set_sched_hook(f: Option<fn(u32)>) {
+    SCHED_HOOK.store(f.map(|f| f as usize).unwrap_or(0), Ordering::SeqCst);
+}
+
+#[inline]
+pub fn sched_point(kind: u32) {
+    let p = SCHED_HOOK.load(Ordering::Relaxed);
+    if p != 0 {
+        let f: fn(u32) = unsafe { std::mem::transmute::<usize, fn(u32)>(p) };
+        f(kind);
+    }
+}
